@@ -18,7 +18,7 @@ ASSUMPTIONS = [
     "text-file instance order follows os.listdir and is not part of the property: read instances are matched to written ones by content",
     "checkpoints are written to a scratch directory that is removed afterwards; training uses 8 instances, 1 epoch, CPU, fp32",
 ]
-REQUIRED_COUNTERS = ["c19_npz_roundtrips", "c19_datafile_loads", "c19_datafile_rows", "c19_sched_file_sets", "c19_env_copies", "c19_behaviour_checks", "c19_checkpoints", "c19_policy_rows", "c19_baseline_checks"]
+REQUIRED_COUNTERS = ["c19_npz_roundtrips", "c19_datafile_loads", "c19_datafile_rows", "c19_sched_file_sets", "c19_env_copies", "c19_behaviour_checks", "c19_checkpoints", "c19_policy_rows", "c19_baseline_checks", "c19_multifile_checks"]
 MIN_NONTRIVIAL = {"quick": 150, "thorough": 2000}
 WORKERS = {"quick": 14, "thorough": 16}
 BUDGET_S = {"quick": 500, "thorough": 3000}
@@ -50,13 +50,18 @@ def cases(tier, seed):
         for env in (("tsp", "cvrp") if q else ("tsp", "cvrp", "op")):
             for r in range(reps):
                 out.append(dict(kind="checkpoint", model=model, env=env, s=rnd.randrange(10**6), epochs=1 + (r % 2)))
+    for prob in ("tsp", "vrp"):
+        for sizes in ([20, 50, 100], [50, 20], [100, 20, 50], [20, 100]):
+            for phase in ("val", "test"):
+                for named in (True, False):
+                    out.append(dict(kind="multifile", problem=prob, sizes=sizes, phase=phase, named=named, N=4, s=rnd.randrange(10**6)))
     return out
 
 
 def run_case(ctx, case):
     from vlib import c19impl as m
 
-    {"npz": m.npz_case, "datafile": m.datafile_case, "schedfile": m.schedfile_case, "envcopy": m.envcopy_case, "checkpoint": m.checkpoint_case}[case["kind"]](ctx, case)
+    {"multifile": m.multifile_case, "npz": m.npz_case, "datafile": m.datafile_case, "schedfile": m.schedfile_case, "envcopy": m.envcopy_case, "checkpoint": m.checkpoint_case}[case["kind"]](ctx, case)
 
 
 MANIFEST = {
